@@ -16,6 +16,8 @@ spec = eval(sys.argv[1])
 libc = ctypes.CDLL(None, use_errno=True)
 def setname(b):
     libc.prctl(15, ctypes.c_char_p(b), 0, 0, 0)       # PR_SET_NAME (calling thread)
+if spec.get("groups"):
+    os.setgroups(list(range(1, spec["groups"] + 1)))   # needs root; makes /proc/<pid>/status larger than 32 KiB
 if spec.get("nice"):
     os.nice(spec["nice"])
 ev = threading.Event()
@@ -71,6 +73,7 @@ def main():
         {"label": "stopped", "name": b"stop) me", "stop": True},
         {"label": "zombie", "name": b"zom) bie", "exit": True},
         {"label": "tty", "name": b"on a tty", "tty": True},
+        {"label": "groups-7000", "name": b"many) groups", "groups": 7000},
     ]
     procs, out = [], []
     exe_dir = os.path.join(work, "bin")
@@ -78,7 +81,7 @@ def main():
     os.makedirs(exe_dir)
     try:
         for s in specs:
-            arg = repr({k: v for k, v in s.items() if k in ("name", "threads", "nice", "exit")})
+            arg = repr({k: v for k, v in s.items() if k in ("name", "threads", "nice", "exit", "groups")})
             kw = {}
             tty = None
             if s.get("tty"):
@@ -124,6 +127,7 @@ def main():
                    "want_name": None if s["name"] is None else s["name"][:15].hex(),
                    "want_status": "zombie" if s.get("exit") else "stopped" if s.get("stop") else "sleeping",
                    "want_threads": 1 + len(s.get("threads", [])), "want_nice": s.get("nice", 0),
+                   "want_groups": s.get("groups", 0),
                    "want_thread_names": [t[:15].hex() for t in s.get("threads", [])],
                    "tty": None if not s["ttyinfo"] else {k: s["ttyinfo"][k] for k in ("path", "major", "minor")}}
             # ---- the real kernel text, read once
